@@ -122,6 +122,19 @@ CLAIMED = {
          "main theorem: a handler's own Content-Length is truthful; trusted: Coq kernel, extraction, lib/srv.py, python strict parser",
     technique="Coq proof over executable model + differential correspondence (extracted OCaml vs real lighttpd over loopback, fault-injected) + strict RFC 9112 parser monitor",
     design="5/C04"),
+ "C08": dict(
+    text="Coq theorem over a model regenerated from the source on every run (tools/c2v_reset.py reads the fields of struct request_st and the bodies "
+         "of request_reset / request_reset_ex / request_config_reset / http_response_reset / http_response_body_clear): every field is re-initialised "
+         "between requests or is one of 18 listed connection-level fields, hence two request objects with arbitrary histories that agree on those are "
+         "indistinguishable after the reset; HTTP/1.x and HTTP/2 share the header parser; the behavioural side is a metamorphic search on the real "
+         "lighttpd (own HTTP/2 client, lib/h2c.py): each of 12 probes alone on a fresh connection versus after random prefixes (keep-alive, pipelined, "
+         "earlier and concurrent HTTP/2 streams; failing, bodied, ranged, authenticated requests), over HTTP/1.0, 1.1 and 2, must give the same status, "
+         "representation headers, body and CGI environment",
+    note="PARTIAL: the theorem is about struct request_st fields only (module-private plugin_ctx state, stat cache, HPACK dynamic table are covered by "
+         "the search alone); the translator recognises assignments, memset, buffer_clear/reset, array_reset_data_strings, chunkqueue_reset on r->field; "
+         "aborted requests and traffic on other connections are sampled lightly; trusted: Coq kernel, tools/c2v_reset.py, lib/srv.py, lib/h2c.py",
+    technique="Coq proof over a translator-generated model (regenerated from source each run) + metamorphic differential search on the real lighttpd (HTTP/1.0, 1.1, 2)",
+    design="5/C08"),
  "C18": dict(
     text="Coq theorems over an executable specification of the RFC 4918 tree semantics (PUT, DELETE, MKCOL, COPY with Overwrite/Depth, MOVE) and the "
          "PUT staging protocol (temporary file in the same directory, appends, rename): refused operations change nothing, MOVE = COPY + removal of the "
